@@ -44,7 +44,8 @@ class C01(Check):
         "adversarial concatenation), python-format and placeholder templates; every rendering variant is lexed with "
         "Lexer(config).lex. Oracle: tokens concatenate to the rendered text; non-meta tokens tile it contiguously; "
         "source slices in bounds with start<=stop; identical to rendered slices when untemplated; non-decreasing "
-        "unless the templater's own slice map steps back (loop); union of token source slices covers the source; "
+        "unless the templater's own slice map steps back (loop); a token inside a single literal slice maps to exactly "
+        "the corresponding source characters; union of token source slices covers the source; "
         "#unlexable tokens == #LXR errors at the same positions; last token end_of_file; no exception; raw inputs that "
         "contain a carriage return are additionally lexed as given (Lexer.lex(str), without the linter's newline "
         "normalisation). "
@@ -141,6 +142,17 @@ class C01(Check):
                              clause="b-contiguous", templater=templater, variant=var, cause=cause)
                     break
                 off = ts.stop
+                # (h) a token that lies inside one literal slice maps to exactly the corresponding source characters
+                if templater != "raw" and ts.stop > ts.start:
+                    lit = next((s_ for s_ in tf.sliced_file if s_.slice_type == "literal"
+                                and s_.templated_slice.start <= ts.start and ts.stop <= s_.templated_slice.stop), None)
+                    if lit is not None:
+                        d_ = lit.source_slice.start - lit.templated_slice.start
+                        if (ss.start, ss.stop) != (ts.start + d_, ts.stop + d_):
+                            out.fail(f"token {t.raw!r} inside literal slice {lit.templated_slice}->{lit.source_slice} has "
+                                     f"source {ss}, expected {(ts.start + d_, ts.stop + d_)}", clause="h-literal-exact",
+                                     templater=templater, variant=var, cause=classify_cause(tf, t, templater))
+                            break
                 if templater == "raw":
                     if (ss.start, ss.stop) != (ts.start, ts.stop):
                         out.fail(f"token {t.raw!r} source {ss} != templated {ts} in untemplated file", clause="d-identity",
